@@ -13,6 +13,7 @@ import (
 	"github.com/tetratelabs/wazero/verifharness/memacc"
 	"github.com/tetratelabs/wazero/verifharness/memreplay"
 	"github.com/tetratelabs/wazero/verifharness/registry"
+	"github.com/tetratelabs/wazero/verifharness/wasifs"
 )
 
 var cmds = map[string]func([]string){
@@ -31,6 +32,8 @@ var cmds = map[string]func([]string){
 	"calls-child":         calls.ChildPlain,
 	"replay-calls-listen": calls.MainListen,
 	"calls-listen-child":  calls.ChildListen,
+	"replay-wasifs":       wasifs.Main,
+	"wasifs-readdir":      wasifs.Readdir,
 	"fc-child":            fcache.Child,
 	"fc-replay":           fcache.ReplayProc,
 	"fc-gate":             fcache.ReplayGate,
